@@ -1,7 +1,7 @@
 (* Extraction of the executable model. ExtrOcamlBasic only; N/Z/positive/nat stay inductive. *)
 From Coq Require Extraction ExtrOcamlBasic.
 From Base Require Import PyStr.
-From Model Require Import Wrap BlockStart Resolver RxPort Tags LineWrap Frontmatter FsOps Cli Typography Ast Transforms Render Pipeline.
+From Model Require Import Wrap BlockStart Resolver RxPort Tags LineWrap Frontmatter FsOps Cli Typography Ast Transforms Render Pipeline InlineRead BlockRead.
 
 Extraction Language OCaml.
 Extraction "model.ml"
@@ -18,4 +18,5 @@ Extraction "model.ml"
   main_run merge_fields find_config
   smart_quotes ellipses
   walk include_explicit expand_glob resolve
+  read_code_span read_destination read_title read_fenced render_code_span link_destination normalize_title_quotes
   dedent prepare_body render_parsed transform_doc render_doc doc_cleanups coalesce_doc fill_markdown parser_input.
